@@ -134,8 +134,12 @@ func cmdCheck(args []string) int {
 			inconcl = append(inconcl, h.name+": "+m)
 		}
 		reportedKnown := map[string]bool{}
+		confirmedMsg := map[string]int{}
 		for i := range res.violations {
 			v := &res.violations[i]
+			if confirmedMsg[v.Kind+"|"+v.Msg] >= 1 {
+				continue // further witnesses of an already confirmed violation are not replayed again
+			}
 			isKnown := false
 			for ki := range known {
 				if known[ki].matches(id, v) {
@@ -166,12 +170,16 @@ func cmdCheck(args []string) int {
 				confirmed = true
 			case okEngine && native == "not-applicable":
 				confirmed = true
+			case okEngine && v.Clock && native == "not-reproduced":
+				// the path depends on values of the clock stub, which a native run cannot be given
+				confirmed = true
 			case okEngine && h.preemptionBound > 0:
 				// schedule-dependent: native goroutine scheduling is not controlled; the pinned
 				// re-execution of the real SSA under the counterexample schedule reproduced it
 				confirmed = true
 			}
 			if confirmed {
+				confirmedMsg[v.Kind+"|"+v.Msg]++
 				nViol++
 				fmt.Printf("VIOLATION property=%s replay=%s\n", id, path)
 			} else {
